@@ -105,6 +105,10 @@ func c05Scenarios(tier string) []schedh.Scenario {
 	add(false, "undefined-dep-otherpkg", map[string]string{"p/BUILD": rule("a", "//q:nope"), "q/BUILD": rule("b")}, nil, f, "//p:a")
 	add(true, "missing-package", map[string]string{"p/BUILD": rule("a", "//q:b")}, nil, f, "//p:a")
 	add(true, "cycle2", map[string]string{"p/BUILD": rule("a", ":b") + rule("b", ":a")}, nil, f, "//p:a")
+	// a cycle in a run in which something is really built too (a finished target must not keep the build "active": the
+	// cycle check only runs once nothing is)
+	add(true, "cycle-with-leaf", map[string]string{"p/BUILD": rule("a", ":b") + rule("b", ":a", ":c") + rule("c")}, nil, f, "//p:a")
+	add(false, "cycle-beside-ok", map[string]string{"p/BUILD": rule("a", ":b") + rule("b", ":a") + rule("ok")}, nil, f, "//p:a", "//p:ok")
 	add(false, "cycle3", map[string]string{"p/BUILD": rule("a", ":b") + rule("b", ":c") + rule("c", ":a")}, nil, f, "//p:a")
 	add(false, "cycle-xpkg", map[string]string{"p/BUILD": rule("a", "//q:b"), "q/BUILD": rule("b", "//p:a")}, nil, f, "//p:a")
 	// no failure injected: the build must succeed (exit status faithful in both directions)
